@@ -137,22 +137,36 @@ Fixpoint srv_seconds (fuel : nat) (ct : N) (c : tcfg) (v5 : bool) (n : N) (m : m
 (* client kinds 13 / 15: CONNECT is written at once; after CONNACK the keep-alive loop is Timer.k_step,
    one KTick at the start of every later second; the broker closing is KClose; op 31 = the application sends
    one QoS 1 PUBLISH (first byte 50), op 32 = the broker's PUBACK (no effect on the loop) *)
-Record mcli := mkMcli { c_k : option kstate; c_closed : bool; c_pkts : list N }.
+(* the keep-alive period a client adopts after CONNACK: the Server Keep Alive when CONNACK carries one (MQTT 5,
+   [MQTT-3.2.2-21]: the client MUST use it instead of the value it sent), else its own; 0 = no keep-alive loop *)
+Definition k_effective (own : N) (server : option N) : N :=
+  match server with Some k => k | None => own end.
 
-Fixpoint cli_ops (ka n : N) (m : mcli) (ops : list (list N)) : mcli :=
+(* ops 341..343: CONNACK carrying Server Keep Alive 1..3 (MQTT 5; a v3 CONNACK has no such field: plain) *)
+Definition srv_ka_of (v5 : bool) (op : N) : option N :=
+  if v5 && (341 <=? op) && (op <=? 343) then Some (op - 340) else None.
+Definition is_connack (op : N) : bool := (op =? 30) || (op =? 33) || ((341 <=? op) && (op <=? 343)).
+
+Record mcli := mkMcli { c_k : option kstate; c_closed : bool; c_pkts : list N; c_ka : N }.
+
+Fixpoint cli_ops (v5 : bool) (ka n : N) (m : mcli) (ops : list (list N)) : mcli :=
   match ops with
   | [] => m
   | [s; op] :: r =>
     if s =? n then
       let m1 := if c_closed m then m
-                else if (op =? 30) || (op =? 33) then     (* 33: CONNACK announcing Receive Maximum 1 *)
-                  match c_k m with None => mkMcli (Some (k_init ka)) false (c_pkts m) | Some _ => m end
+                else if is_connack op then     (* 33: CONNACK announcing Receive Maximum 1 *)
+                  match c_k m with
+                  | None => let e := k_effective ka (srv_ka_of v5 op) in mkMcli (Some (k_init e)) false (c_pkts m) e
+                  | Some _ => m
+                  end
                 else if op =? 3 then
-                  mkMcli (match c_k m with Some k => Some (fst (k_step ka k KClose)) | None => None end) true (c_pkts m)
+                  mkMcli (match c_k m with Some k => Some (fst (k_step (c_ka m) k KClose)) | None => None end) true
+                         (c_pkts m) (c_ka m)
                 else m in
-      cli_ops ka n m1 r
-    else cli_ops ka n m r
-  | _ :: r => cli_ops ka n m r
+      cli_ops v5 ka n m1 r
+    else cli_ops v5 ka n m r
+  | _ :: r => cli_ops v5 ka n m r
   end.
 
 (* op 31 of second n: the application publishes one QoS 1 message, written at once (the window is >= 1).  The
@@ -163,29 +177,42 @@ Fixpoint cli_pubs (n : N) (m : mcli) (ops : list (list N)) : mcli :=
   | [] => m
   | [s; op] :: r =>
     cli_pubs n (if (s =? n) && (op =? 31) && negb (c_closed m)
-                then match c_k m with Some _ => mkMcli (c_k m) false (c_pkts m ++ [50]) | None => m end
+                then match c_k m with Some _ => mkMcli (c_k m) false (c_pkts m ++ [50]) (c_ka m) | None => m end
                 else m) r
   | _ :: r => cli_pubs n m r
   end.
 
-Fixpoint cli_seconds (fuel : nat) (ka n : N) (m : mcli) (ops : list (list N)) : list (list N) :=
+(* op 3 of second n (the broker closes) is applied on the second as well, before the loop wakes: a PINGREQ due in
+   that very second is not written any more *)
+Fixpoint cli_closes (n : N) (m : mcli) (ops : list (list N)) : mcli :=
+  match ops with
+  | [] => m
+  | [s; op] :: r =>
+    cli_closes n (if (s =? n) && (op =? 3) && negb (c_closed m)
+                  then mkMcli (match c_k m with Some k => Some (fst (k_step (c_ka m) k KClose)) | None => None end)
+                              true (c_pkts m) (c_ka m)
+                  else m) r
+  | _ :: r => cli_closes n m r
+  end.
+
+Fixpoint cli_seconds (fuel : nat) (v5 : bool) (ka n : N) (m : mcli) (ops : list (list N)) : list (list N) :=
   match fuel with
   | O => []
   | S k =>
-    let m := cli_pubs n m ops in
+    let m := cli_closes n (cli_pubs n m ops) ops in
     let m0 := match c_k m with
-              | Some ks => let '(ks1, ping) := k_step ka ks KTick in
-                           mkMcli (Some ks1) (c_closed m) (c_pkts m ++ (if ping then [192] else []))
+              | Some ks => let '(ks1, ping) := k_step (c_ka m) ks KTick in
+                           mkMcli (Some ks1) (c_closed m) (c_pkts m ++ (if ping then [192] else [])) (c_ka m)
               | None => m
               end in
-    let m1 := cli_ops ka n m0 ops in
-    (b2n (c_closed m1) :: c_pkts m1) :: cli_seconds k ka (n + 1) m1 ops
+    let m1 := cli_ops v5 ka n m0 ops in
+    (b2n (c_closed m1) :: c_pkts m1) :: cli_seconds k v5 ka (n + 1) m1 ops
   end.
 
 Definition run_mqttrt (cfg : list N) (ops : list (list N)) : list (list N) :=
   let kind := nth 8 cfg 0 in
   let h := N.to_nat (nth 7 cfg 0) in
-  if (kind =? 13) || (kind =? 15) then cli_seconds h (nth 0 cfg 0) 0 (mkMcli None false [16]) ops
+  if (kind =? 13) || (kind =? 15) then cli_seconds h (kind =? 15) (nth 0 cfg 0) 0 (mkMcli None false [16] (nth 0 cfg 0)) ops
   else
     let c := m_cfg cfg in
     let o := srv_seconds h (nth 9 cfg 0) c (kind =? 5) 0 (mkMsrv [] false false false (t_init c) 0 []) ops in
